@@ -154,6 +154,10 @@ func Big(k uint) sdkmath.Int {
 	return sdkmath.NewIntFromBigInt(new(bigInt).Lsh(bigOne, k))
 }
 
+// RestartedNode makes NewEnv build environments the way a restarted node comes up: without InitChain (process-global;
+// used by the single-worker determinism replicas only).
+var RestartedNode bool
+
 // NewEnv builds an application, a deterministic genesis, and runs InitChain.
 func NewEnv(opts EnvOptions) *Env {
 	e := &Env{Opts: opts}
@@ -183,6 +187,16 @@ func NewEnv(opts EnvOptions) *Env {
 		e.BlockModules = IrismodModules
 	}
 	if opts.SkipInitChain {
+		return e
+	}
+	if RestartedNode {
+		// a node process started on existing data: the application is constructed, InitChain never runs in this
+		// process; the state arrives through the stores (the caller transplants it)
+		hdr := cmtproto.Header{ChainID: ChainID, Height: 1, Time: GenesisTime, AppHash: fixedHash("apphash", 0)}
+		e.Root = e.App.BaseApp.NewUncachedContext(false, hdr).
+			WithBlockGasMeter(storetypes.NewInfiniteGasMeter()).
+			WithGasMeter(storetypes.NewInfiniteGasMeter()).
+			WithEventManager(sdk.NewEventManager())
 		return e
 	}
 
